@@ -42,5 +42,17 @@ UNIT = {
         m("add_dynamic_indexed_choice_for_structure"),
         m("index_structure", extra=["split_or_guard"]),
         m("index_list"),
+        m("new"),
+        # ---- retract side
+        {"fn": "offset", "impl": r"impl IndexedChoiceInstruction", "file": F_INS, "emit_name": "IndexedChoiceInstruction_offset", "rewrites": ["strip_head", "name_return"],
+         "wrap_pre": "impl IndexedChoiceInstruction {\n", "wrap_post": "}\n"},
+        {"fn": "remove_structure_index", "file": F_I, "rewrites": STD + ["guard_into_wild"], "wrap_pre": "#[verifier::exec_allows_no_decreases_clause]\n"},
+        {"fn": "remove_list_index", "file": F_I, "rewrites": STD},
+        {"fn": "remove_constant_indices", "file": F_I, "rewrites": STD + ["guard_into_wild",
+            # R6: the iterator over the constant and its alternative key becomes a vector of their heap cells
+            ("replace", "let iter = once(&constant).chain(overlapping_constants.iter());", "let iter = literal_keys(constant, overlapping_constants);", "R6"),
+            ("replace", "for constant in iter.map(|l| HeapCellValue::from(*l))", "for constant in iter", "R6")],
+         "wrap_pre": "#[verifier::exec_allows_no_decreases_clause]\n"},
+        {"fn": "remove_index", "file": F_I, "rewrites": STD},
     ],
 }
